@@ -144,7 +144,11 @@ class Check(BaseCheck):
         v, t = gen.grid(2, 2)
         bad = [("dup", (np.array([0, 0]), np.array([1.0, 2.0])), ()), ("len", (np.array([0, 1]), np.array([1.0])), ()),
                ("tuple3", (np.array([0]), np.array([1.0]), 5), ()), ("empty", (np.array([], dtype=int), np.array([])), ()),
-               ("nlen", (np.array([0]), np.array([1.0])), (np.array([1, 2]), np.array([1.0]))), ("ok", (np.array([0]), np.array([1.0])), ())]
+               ("nlen", (np.array([0]), np.array([1.0])), (np.array([1, 2]), np.array([1.0]))), ("ok", (np.array([0]), np.array([1.0])), ()),
+               ("dup-equal-values", (np.array([2, 2]), np.array([1.0, 1.0])), ()), ("dup-not-adjacent", (np.array([0, 3, 5, 0]), np.array([1.0, 2.0, 0.5, 1.0])), ()),
+               ("dup-zero-values", (np.array([4, 1, 4]), np.array([0.0, 0.0, 0.0])), ()), ("len-longer-data", (np.array([0]), np.array([1.0, 2.0])), ()),
+               ("nempty", (np.array([0]), np.array([1.0])), (np.array([], dtype=int), np.array([]))),
+               ("ok-neumann", (np.array([0, 7]), np.array([1.0, -1.0])), (np.array([1, 2]), np.array([1.0, 0.5])))]
         for name, dt, nt in bad:
             case = dict(kind="tri", v=v, t=t, lump=False, h=0.0, hmode="zero", didx=np.array(dt[0]), ddat=np.array(dt[1]), ntup=nt, dtup_override=dt, name="bad:" + name)
             res = core.call(lambda: run_impl(case)[2])
